@@ -30,7 +30,7 @@ ASSUMPTIONS = [
     'adjust never has to leave the range',
     'drange(t, u, "1b") is demanded for t <= u only (for t > u the statement does not say whether the answer is empty or descending)',
     'the explicit adj= argument of add/bdays is treated as a second spelling of the configuration adj; dt_bump(t, "nb") is only a route into add',
-    'registry: every registration passes a small explicit t0/t1 (the default 1900-2300 table costs seconds to build); a re-registration that '
+    'registry: the table path (add(+4), bdays) is compared only for registrations that passed a small explicit t0/t1 (the default 1900-2300 table costs seconds to build); registrations without t0/t1 are compared on is_bday/is_holiday/adjust/add(+-1); a re-registration that '
     'omits weekend= may keep the old weekend or fall back to the default [5, 6] - either is accepted, the holidays must be the new ones; '
     'calendar(<Calendar object>, holidays=h) is called with non-empty h only (the code spells "not given" as falsy); fetching a key that was never registered '
     'is modelled as registering a calendar without holidays and with the default weekend (what calendar(key) documents: "construct a new one")',
@@ -489,6 +489,8 @@ class RegistryModel(object):
         'reregister_hols': dict(key=_key_s, hols=_hols_s),                          # calendar(key, holidays, t0=, t1=): weekend omitted
         'register_obj': dict(key=_key_s, hols=_hols_s, weekend=_wk_s),             # calendar(Calendar(key, ...))
         'reregister_obj': dict(key=_key_s, hols=_hols1_s),                          # calendar(calendar(key), holidays=h)
+        'reregister_only_hols': dict(key=_key_s, hols=st.one_of(st.just([]), _hols_s)),   # calendar(key, holidays=h): nothing else passed, h often []
+        'reregister_no_range': dict(key=_key_s, hols=st.one_of(st.just([]), _hols_s), weekend=_wk_s),  # calendar(key, holidays=h, weekend=w): no t0/t1
         'fetch': dict(key=_key_s),                                                  # calendar(key)
         'populate': dict(key=_key_s, k=st.integers(0, RW - 1), n=st.integers(2, 6)),  # force the lookup tables of the registered object
     }
@@ -534,6 +536,32 @@ class RegistryModel(object):
         cands = [[5, 6]] + ([w for w in old['weekends'] if w != [5, 6]] if old else [])
         self.model[key] = dict(hols=set(R0 + i for i in hols), weekends=cands, small=True)
         self.flags.add('weekend_omitted')
+
+    def _note_empty(self, key, hols, weekend):
+        # a registration in which every argument besides the key is falsy ([] holidays, [] or no weekend, no range)
+        if not hols and not weekend:
+            self.flags.add('registered_with_only_empty_arguments')
+            old = self.model.get(key)
+            if old is not None and (old['hols'] or (weekend is not None and [] not in old['weekends'])):
+                self.flags.add('reregistered_empty_over_nonempty')
+
+    def op_reregister_only_hols(self, key, hols):
+        self._note_rereg(key, hols)
+        self._note_empty(key, hols, None)
+        old = self.model.get(key)
+        call('calendar(%r, holidays=%s)' % (key, [_d(R0 + i) for i in hols]), lambda: self.D.calendar(key, holidays=self._dts(hols)))
+        cands = [[5, 6]] + ([w for w in old['weekends'] if w != [5, 6]] if old else [])
+        # no t0/t1: the library builds the default 1900-2300 range, so the table path is not compared for this registration
+        self.model[key] = dict(hols=set(R0 + i for i in hols), weekends=cands, small=False)
+        self.flags.add('weekend_omitted')
+        self.flags.add('range_omitted')
+
+    def op_reregister_no_range(self, key, hols, weekend):
+        self._note_rereg(key, hols)
+        self._note_empty(key, hols, weekend)
+        call('calendar(%r, holidays=%s, weekend=%s)' % (key, [_d(R0 + i) for i in hols], weekend), lambda: self.D.calendar(key, holidays=self._dts(hols), weekend=list(weekend)))
+        self.model[key] = dict(hols=set(R0 + i for i in hols), weekends=[list(weekend)], small=False)
+        self.flags.add('range_omitted')
 
     def op_register_obj(self, key, hols, weekend):
         self._note_rereg(key, hols)
@@ -600,6 +628,8 @@ class RegistryModel(object):
                           [_d(o) for o in sorted(m['hols'])], _d(ref.adj(t, a)))
                 got = call('calendar(%r).add(%s, 1, "f")' % (key, _d(t)), c.add, _mk(t), 1, 'f')
                 check(_is_dt(got, ref.add(t, 1, 'f')), 'calendar(%s).add(%s, 1, "f") = %s; last registration implies %s', key, _d(t), _show(got), _d(ref.add(t, 1, 'f')))
+                got = call('calendar(%r).add(%s, -1, "p")' % (key, _d(t)), c.add, _mk(t), -1, 'p')
+                check(_is_dt(got, ref.add(t, -1, 'p')), 'calendar(%s).add(%s, -1, "p") = %s; last registration implies %s', key, _d(t), _show(got), _d(ref.add(t, -1, 'p')))
             if m['small'] and key in self.tables:
                 # the indexed path must follow the last registration too (a table kept from an earlier registration would show here)
                 for k in probes:
@@ -643,11 +673,12 @@ SUBS = [
              'non-trivial = the configuration has holidays and non-business days',
         floor=0.25),
     MachineSub('registry', RegistryModel, quick=(800, 12), thorough=(1500, 20),
-               rule='histories of register(key, holidays, weekend) / re-register with holidays only / register a Calendar object / re-register through the object / '
+               rule='histories of register(key, holidays, weekend, t0, t1) / re-register with holidays + range / re-register with ONLY holidays=h (often []) / re-register with holidays=h, weekend=w and no range (h and w often []) / register a Calendar object / re-register through the object / '
                     'fetch(key) / populate tables, 3 keys, holidays in a 70-day window; after every step every key known to the model is fetched and is_bday over the window, '
                     'is_holiday, adjust, add(+1) and - for small ranges - the table path add(+4) and bdays are compared with the LAST registration. '
                     'non-trivial = a key was re-registered with different holidays and fetched afterwards; registry cleared at the start of every history',
-               floor=0.3, class_floors={'reregistered_after_tables_built': 0.2, 'object_route': 0.2}),
+               floor=0.3, class_floors={'reregistered_after_tables_built': 0.1, 'object_route': 0.2, 'reregistered_empty_over_nonempty': 0.15,
+                                        'registered_with_only_empty_arguments': 0.25}),
 ]
 
 # quick tier: the runner splits day_laws and drange_1b (quick >= 800) over 4 processes; all_days (few, expensive cases) likewise
